@@ -1,6 +1,7 @@
 package checks
 
 import (
+	"crypto/sha256"
 	"bytes"
 	"context"
 	"errors"
@@ -498,6 +499,7 @@ func c13(tier string) int {
 	u := uni.New(ev.Seed(), 8, []int{0})
 	gen := wh.NewCPGen(u)
 	la := wh.LogCfg{Origin: logA(), Key: u.K1}
+	c13HugeSizes(run, u, la)
 	total := int64(0)
 	maxPts := 0
 	var scs []c13Scenario
@@ -561,7 +563,80 @@ func c13(tier string) int {
 			run.Vacuous("cycle outcome %q never observed", k)
 		}
 	}
-	run.Set("rule", fmt.Sprintf("for witness state in {none, 0, 2, 5} x log head in {0, 2, 3, 6} (quick) / {none, 0..5} x 0..6 (thorough, plus a third deviation for honest logs on the quick grid) x {honest, fork of the witnessed prefix, wrong key, wrong origin, correctly signed but served with a malformed tail (extra LF, CRLF, trailing space, missing final LF, NUL)} x {recording stub witness, real witness behind the real witnessAdapter}: the real feeder.FeedOnce is run with every environment call answered by the explorer - FetchCheckpoint {ok, fail}, GetLatestCheckpoint {ok, transient failure of 3 kinds (plain error, per-request timeout wrapping context.DeadlineExceeded, inner context.Canceled), ok after another feeder advanced the witness}, FetchProof {ok, 3 failure kinds}, Update {ok, 3 failure kinds, witness advanced first}, back-off timer {fires at once, context ends at this wait} - for every placement of up to %d non-default answers (deviation-bounded DFS, positions discovered dynamically; the back-off timer is replaced by an overlay of backoff/timer.go so no wall-clock time passes; a horizon of %d timer starts ends the context). Oracle = reference model of one cycle (see DESIGN.md C13). distinct_nontrivial = distinct (scenario, placement) with at least one deviation", bound, bound+3))
+	run.Set("rule", fmt.Sprintf("every ordered pair of (witness size, log size) over {1, 2, 2^31-1, 2^31, 2^32+1, 2^63-1, 2^63, 2^63+5, 2^64-2, 2^64-1} fault-free (ahead / equal / behind decided on the real numbers); and for witness state in {none, 0, 2, 5} x log head in {0, 2, 3, 6} (quick) / {none, 0..5} x 0..6 (thorough, plus a third deviation for honest logs on the quick grid) x {honest, fork of the witnessed prefix, wrong key, wrong origin, correctly signed but served with a malformed tail (extra LF, CRLF, trailing space, missing final LF, NUL)} x {recording stub witness, real witness behind the real witnessAdapter}: the real feeder.FeedOnce is run with every environment call answered by the explorer - FetchCheckpoint {ok, fail}, GetLatestCheckpoint {ok, transient failure of 3 kinds (plain error, per-request timeout wrapping context.DeadlineExceeded, inner context.Canceled), ok after another feeder advanced the witness}, FetchProof {ok, 3 failure kinds}, Update {ok, 3 failure kinds, witness advanced first}, back-off timer {fires at once, context ends at this wait} - for every placement of up to %d non-default answers (deviation-bounded DFS, positions discovered dynamically; the back-off timer is replaced by an overlay of backoff/timer.go so no wall-clock time passes; a horizon of %d timer starts ends the context). Oracle = reference model of one cycle (see DESIGN.md C13). distinct_nontrivial = distinct (scenario, placement) with at least one deviation", bound, bound+3))
 	run.Assumption("the back-off timer overlay changes only whether/when the timer fires; retry policy, context handling and permanent-error logic are the library's and the repository's")
 	return run.Finish()
+}
+
+// c13HugeSizes: the ahead / equal / behind decisions for sizes around 2^31,
+// 2^32, 2^63 and 2^64 (a log can sign any size and a witness that trusted it
+// on first use holds it): every ordered pair of sizes from the boundary set,
+// fault-free, recording stub witness. Witness ahead: no proof request, no
+// Update, an error. Witness behind: the proof is requested from exactly the
+// witness's size to the log's size and Update carries that old size. Equal:
+// no proof request.
+func c13HugeSizes(run *ev.Run, u *uni.U, la wh.LogCfg) {
+	sizes := []uint64{1, 2, 1<<31 - 1, 1 << 31, 1<<32 + 1, 1<<63 - 1, 1 << 63, 1<<63 + 5, ^uint64(0) - 1, ^uint64(0)}
+	root := func(n uint64) []byte {
+		h := sha256.Sum256([]byte(fmt.Sprintf("huge-root-%d", n)))
+		return h[:]
+	}
+	var n int64
+	for _, w := range sizes {
+		for _, head := range sizes {
+			witCP := u.Sign(uni.Body(la.Origin, w, root(w)), la.Key.Signer, u.W1.CosigSigner)
+			headCP := u.Sign(uni.Body(la.Origin, head, root(head)), la.Key.Signer)
+			type upd struct{ old uint64 }
+			var proofs [][2]uint64
+			var updates []uint64
+			wit := &c13Witness{
+				get: func(ctx context.Context, id string) ([]byte, error) { return witCP, nil },
+				update: func(ctx context.Context, id string, old uint64, cp []byte, p [][]byte) ([]byte, error) {
+					updates = append(updates, old)
+					return cp, nil
+				},
+			}
+			opts := feeder.FeedOpts{
+				LogID: la.ID(), LogOrigin: la.Origin, LogSigVerifier: la.Key.Verif, Witness: wit,
+				FetchCheckpoint: func(ctx context.Context) ([]byte, error) { return headCP, nil },
+				FetchProof: func(ctx context.Context, from, to f_log.Checkpoint) ([][]byte, error) {
+					proofs = append(proofs, [2]uint64{from.Size, to.Size})
+					return [][]byte{root(from.Size ^ to.Size)}, nil
+				},
+			}
+			ctx, release := wh.NoRetryContext(context.Background())
+			_, err := feeder.FeedOnce(ctx, opts)
+			release()
+			n++
+			rel := "witness-behind"
+			switch {
+			case w > head:
+				rel = "witness-ahead"
+			case w == head:
+				rel = "equal"
+			}
+			rep := map[string]any{"kind": "feed-huge", "witness_size": fmt.Sprint(w), "log_size": fmt.Sprint(head)}
+			cls := func(x uint64) string { return c19SizeClass(x) }
+			sig := func(k string) string {
+				return fmt.Sprintf("%s relation=%s witness-size=%s log-size=%s", k, rel, cls(w), cls(head))
+			}
+			desc := fmt.Sprintf("witness at size %d, log at size %d (fault-free): %d proof requests %v, %d Update calls %v, err=%v", w, head, len(proofs), proofs, len(updates), updates, err)
+			switch rel {
+			case "witness-ahead":
+				if len(proofs) > 0 || len(updates) > 0 || err == nil {
+					run.Report(sig("submitted-although-witness-ahead"), desc, rep)
+				}
+			case "equal":
+				if len(proofs) > 0 || err != nil {
+					run.Report(sig("equal-sizes-mishandled"), desc, rep)
+				}
+			default:
+				if err != nil || len(proofs) != 1 || proofs[0] != [2]uint64{w, head} || len(updates) != 1 || updates[0] != w {
+					run.Report(sig("justified-step-not-taken"), desc, rep)
+				}
+			}
+		}
+	}
+	run.Set("huge_size_pairs", n)
+	run.Add("evaluations", n)
 }
